@@ -53,6 +53,9 @@ type opSpec struct {
 	rejectFirst func(w *World) error
 	after       func() // bookkeeping on the main world after the fault-free run
 	model       *modelOp
+	// what the fault-free run on the main world handed to storage.AddAll (captured from the AddResult)
+	added []string
+	heads []string
 }
 
 func safeRun(f func(w *World) error, w *World) (err error) {
@@ -74,6 +77,7 @@ type runner struct {
 	lastLen     map[string]int
 	durableSeen map[string]bool
 	mu          sync.Mutex
+	modelOps    []string
 }
 
 func Run(r *corr.Run) {
@@ -97,6 +101,10 @@ func runWorkload(r *corr.Run, wl int) {
 	defer func() { main.close() }()
 	rn := &runner{r: r, fx: fx, main: main, lastLen: map[string]int{}}
 	rn.g = newGen(rn)
+	if r.Ask("reset") != "ok" {
+		r.Fatal("model does not reset")
+	}
+	rn.modelOps = []string{"reset"}
 	nOps := 8 + r.Intn(6)
 	rn.exec(rn.g.createSpace())
 	for i := 1; i < nOps && !rn.dead && r.TimeLeft(); i++ {
@@ -269,8 +277,8 @@ func (rn *runner) exec(op *opSpec) {
 
 	// --- (3) crash images
 	tImg := rn.timed("images")
-	seen := map[string]string{}
-	var states []string // "pre" | "post" per image, for the model comparison
+	seen := map[string][2]string{}
+	var states [][2]string // label ("pre" | "post") and model-style digest per image
 	for k, dir := range imgs {
 		h := imageHash(dir)
 		st, ok := seen[h]
@@ -295,7 +303,7 @@ func (rn *runner) exec(op *opSpec) {
 
 	// --- (4) correspondence with the Lean model: trace shape and post-crash state at every boundary
 	if op.model != nil {
-		rn.checkModel(op, trace, evs, states)
+		rn.checkModel(op, trace, evs, states, post)
 		if rn.dead {
 			return
 		}
@@ -374,19 +382,19 @@ func injectedAt(evs []Event) int {
 }
 
 // checkImage reopens one crash image with the real constructors.
-func (rn *runner) checkImage(op *opSpec, k, n int, dir string, pre, post *Dump) string {
+func (rn *runner) checkImage(op *opSpec, k, n int, dir string, pre, post *Dump) (res [2]string) {
 	r := rn.r
 	r.Count("image.reopened")
 	w, err := rn.fx.open(dir, false)
 	if err != nil {
 		rn.violate("", "crash-reopen", fmt.Sprintf("%s: crash image at boundary %d/%d does not open: %v", op.kind, k, n, err))
-		return ""
+		return
 	}
 	defer w.close()
 	d, err := dumpDB(w.real, rn.fx)
 	if err != nil {
 		rn.violate("", "crash-reopen", fmt.Sprintf("%s: crash image at boundary %d/%d cannot be read: %v", op.kind, k, n, err))
-		return ""
+		return
 	}
 	st := ""
 	switch d.full() {
@@ -397,13 +405,13 @@ func (rn *runner) checkImage(op *opSpec, k, n int, dir string, pre, post *Dump) 
 	default:
 		rn.violate("", "crash-atomic", fmt.Sprintf("%s: crash image at boundary %d/%d is neither the state before nor after the operation: vs pre {%s} vs post {%s}",
 			op.kind, k, n, d.diff(pre), d.diff(post)))
-		return ""
+		return
 	}
 	r.Count("image." + st)
 	if p := checkDurable(w, d); len(p) > 0 {
 		rn.violate("", "crash-durable", fmt.Sprintf("%s: crash image at boundary %d/%d (%s-state): %s", op.kind, k, n, st, strings.Join(p, "; ")))
 	}
-	return st
+	return [2]string{st, d.modelDigest(rn.fx)}
 }
 
 type viol struct{ sig, stream, desc string }
